@@ -338,6 +338,23 @@ pub fn check(prop: &str, tier: &str) -> i32 {
     if m.leaves == 0 {
         m.machinery_errors.push("no leaf was explored".into());
     }
+    // proviso for C17: verdict of the free-running miri run started by ./check (thorough tier)
+    if let (Ok(log), Ok(status)) = (std::env::var("JLMC_MIRI_LOG"), std::env::var("JLMC_MIRI_STATUS")) {
+        let txt = fs::read_to_string(&log).unwrap_or_default();
+        let ok = status == "0" && txt.contains("MIRI-FREE-RUN ok");
+        let ub = txt.contains("Undefined Behavior") || txt.contains("Data race") || txt.contains("data race") || txt.contains("differs from the single-threaded");
+        let verdict = if ok { "no data race / UB reported" } else if ub { "miri reported a data race, UB or a wrong concurrent result" } else { "miri run did not complete (tooling); proviso not established in this run" };
+        m.extra.insert("miri_free_run".into(), json!({"status": status, "verdict": verdict, "log": log}));
+        if ub && !ok {
+            m.violation_count += 1;
+            let tail: String = txt.lines().rev().take(30).collect::<Vec<_>>().into_iter().rev().collect::<Vec<_>>().join("\n");
+            m.violations.push(json!({
+                "sub": "miri-free-run", "profile": "miri", "case": {"miri_log": log},
+                "expected": "free-running concurrent calls on shared inputs: no data race, no UB, same results",
+                "actual": tail, "site": Value::Null
+            }));
+        }
+    }
     if m.outcomes.len() < 2 && m.violation_count == 0 && !plan.single_outcome_ok {
         m.machinery_errors.push(format!("vacuous space: one outcome class only: {:?}", m.outcomes));
     }
